@@ -1,4 +1,136 @@
+/-
+  C12 — A shared retort is safe under concurrent first use.
+  Property theorems only; helper lemmas live in `AdaptixProofs/Lemmas/Threads*.lean`.
+
+  Model: `AdaptixModel/Retort/Threads.lean` — any number of threads, each performing `retort.load(data, tp)`
+  (`get_loader` + call) on one shared retort; `step sys s t` is one GIL-atomic action of thread `t`; a schedule
+  is an arbitrary `List Tid`.  `Mode.byId` is the repaired `FuncWrapper` (stubs compared by identity,
+  fixes/C12-stub-identity.patch), `Mode.byLoc` the unrepaired one (stubs equal when their locations are equal).
+-/
 import AdaptixModel.Retort.Threads
+import AdaptixProofs.Lemmas.ThreadsInv
+import AdaptixProofs.Lemmas.ThreadsProgress
+import AdaptixProofs.Lemmas.ThreadsCompile
+
 namespace Adaptix.Threads.C12
-theorem placeholder : True := trivial
+
+open Adaptix.Threads
+
+/-- the retort of a type graph `G`: request programs are what `compile` produces -/
+def retort (G : Graph) (mode : Mode) (fuel evalFuel : Nat) : Sys :=
+  { mode := mode, body := compile G fuel, fuel := evalFuel }
+
+/-! ### the repaired tree: stubs compared by identity -/
+
+/-- **safe_inv.**  The invariant "a request only ever holds references that it owns or that are stub-free; the
+    loader cache and every `call` only see references all of whose reachable stubs belong to completed requests;
+    a completed request has bound all its stubs" (`Inv`, see `Lemmas/Threads.lean`) holds initially and is
+    preserved by every atomic action of every thread: it holds after ANY schedule, for any number of threads,
+    any type graph (self-recursive, mutually recursive, shared sub-types …) and any requested types. -/
+theorem safe_inv (G : Graph) (fuel evalFuel : Nat) (reqs : List (TyId × Nat)) (σ : List Tid) :
+    Inv (retort G .byId fuel evalFuel) (run (retort G .byId fuel evalFuel) (init reqs) σ) :=
+  run_inv (sys := retort G .byId fuel evalFuel) rfl σ
+    (init_inv _ reqs (fun r _ => compile_balanced G fuel r.1))
+
+/-- **No call ever meets an unbound stub**, whatever the interleaving: the outcome
+    "'NoneType' object is not callable" (`Res.unbound`) is unreachable. -/
+theorem no_unbound_call (G : Graph) (fuel evalFuel : Nat) (reqs : List (TyId × Nat)) (σ : List Tid)
+    (t : Tid) (th : Thread)
+    (h : (run (retort G .byId fuel evalFuel) (init reqs) σ).threads[t]? = some th) :
+    th.result ≠ some .unbound :=
+  ((safe_inv G fuel evalFuel reqs σ).threads t th h).res
+
+/-- **Whatever is in the loader cache can be called at any later time** (loaders obtained concurrently stay
+    correct for later calls, including self-referencing loaders of recursive models): after any schedule, calling
+    any cached loader on data of any depth with any fuel does not meet an unbound stub. -/
+theorem cached_loaders_stay_callable (G : Graph) (fuel evalFuel : Nat) (reqs : List (TyId × Nat))
+    (σ : List Tid) (e : TyId × Ref) (n d : Nat)
+    (h : e ∈ (run (retort G .byId fuel evalFuel) (init reqs) σ).loaderCache) :
+    eval (run (retort G .byId fuel evalFuel) (init reqs) σ).heap
+         (run (retort G .byId fuel evalFuel) (init reqs) σ).stubs n d e.2 ≠ .unbound :=
+  sealed_eval (safe_inv G fuel evalFuel reqs σ) n d e.2 ((safe_inv G fuel evalFuel reqs σ).lc e h)
+
+/-- **No deadlock, no starvation by others** (holds for both comparison modes): a thread that gets
+    `stepBound` turns in a schedule is finished at its end, whatever the other threads do in between.
+    There is no blocking action: the only lock of the code (`ConcurrentCounter._lock`) guards the straight-line
+    `idx = d[name]; d[name] += 1`, which is part of one atomic action of the model. -/
+theorem every_thread_finishes (sys : Sys) (reqs : List (TyId × Nat)) (σ : List Tid) (t : Tid) (r : TyId × Nat)
+    (hr : reqs[t]? = some r) (hturns : stepBound sys r.1 ≤ σ.count t) :
+    ∃ (th : Thread) (res : Res), (run sys (init reqs) σ).threads[t]? = some th ∧ th.phase = .done ∧ th.result = some res ∧
+      th.ty = r.1 ∧ th.depth = r.2 := by
+  have hth : (init reqs).threads[t]? = some (mkThread r.1 r.2) := by simp [init, hr]
+  obtain ⟨th', h1, h2, h2', h3, h4⟩ := run_measure sys t σ hth (by simp [mkThread])
+  have hdone : th'.phase = .done := by
+    refine measure_zero_done (sys := sys) ?_
+    have hb := measure_le_bound sys (mkThread r.1 r.2)
+    have hty : (mkThread r.1 r.2).ty = r.1 := rfl
+    rw [hty] at hb
+    omega
+  have hsome := h4 hdone
+  cases hres : th'.result with
+  | none => rw [hres] at hsome; cases hsome
+  | some res => exact ⟨th', res, h1, hdone, hres, h2, h2'⟩
+
+/-- **all_schedules_safe (partial).**  For any number of threads, any type graph and ANY schedule in which every
+    thread gets enough turns: the run completes (every thread is `done`) and every call has produced a result that
+    is not the unbound-stub failure.
+    Full-strength statement (additionally: every result equals the result of the sequential run,
+    `results (run σ) = results (run (sequentialSchedule …))`) is `all_schedules_safe` below, which needs the
+    typing invariant of `Lemmas/ThreadsTyped.lean`. -/
+theorem all_schedules_safe_partial (G : Graph) (fuel evalFuel : Nat) (reqs : List (TyId × Nat)) (σ : List Tid)
+    (hturns : ∀ (t : Tid) (r : TyId × Nat), reqs[t]? = some r →
+      stepBound (retort G .byId fuel evalFuel) r.1 ≤ σ.count t) :
+    ∀ (t : Tid) (r : TyId × Nat), reqs[t]? = some r →
+      ∃ (th : Thread) (res : Res), (run (retort G .byId fuel evalFuel) (init reqs) σ).threads[t]? = some th ∧
+        th.phase = .done ∧ th.result = some res ∧ res ≠ .unbound := by
+  intro t r hr
+  obtain ⟨th, res, h1, h2, h3, _, _⟩ :=
+    every_thread_finishes (retort G .byId fuel evalFuel) reqs σ t r hr (hturns t r hr)
+  have hres := no_unbound_call G fuel evalFuel reqs σ t th h1
+  exact ⟨th, res, h1, h2, h3, fun h => hres (by rw [h3, h])⟩
+
+/-! ### the unrepaired tree: stubs equal by location -/
+
+/-- `@dataclass class Chain: next: Optional["Chain"] = None` as the providers see it (this is the graph the
+    harness builds for the scenario `chain-self-recursive`; sites: 1,2 = the shape providers of the other model
+    kinds (they raise), 3 = the dataclass shape provider, 10 = ModelLoaderProvider._make_loader,
+    12 = UnionProvider._single_optional_dt_loader; locations: 4 = TypeHintLoc(Chain),
+    3 = InputFieldLoc(next: Optional[Chain]), 1 = GenericParamLoc(Chain, 0)). -/
+def chainG : Graph where
+  node := fun ty =>
+    match ty with
+    | 1 => { site := 10, kind := .fresh false, pre := [(1, 1000, .fail), (2, 1000, .fail), (3, 1000, .aux)],
+             children := [3] }
+    | 2 => { site := 12, kind := .fresh true, pre := [], children := [1] }
+    | _ => default
+  locTy := fun l => match l with | 1 => 1 | 2 => 2 | 3 => 2 | 4 => 1 | _ => 0
+  topLoc := fun ty => match ty with | 1 => 4 | 2 => 2 | _ => 0
+
+/-- thread 0 runs until it has stored the inner model loader (which captures its unbound stub) and the Optional
+    loader in the call cache; thread 1 runs its whole `load` (it is served thread 0's closures because its own
+    stub is *equal by location*) and calls the result; thread 0 finishes.  One preemption. -/
+def badSchedule : List Tid := List.replicate 14 0 ++ List.replicate 19 1 ++ List.replicate 5 0
+
+/-- **exists_bad_schedule.**  With stubs compared by location (the unrepaired `FuncWrapper.__eq__`), the faithful
+    model has a 2-thread schedule with a single preemption in which a perfectly valid `load` calls an unbound
+    stub ("'NoneType' object is not callable").  The harness replays this very schedule on the real retort
+    (scenario `chain-self-recursive`) and observes the same action trace and the same failure.  Hence the
+    full-strength `no_unbound_call` is FALSE for `Mode.byLoc`. -/
+theorem exists_bad_schedule :
+    ∃ σ : List Tid, ∃ th : Thread, (run (retort chainG .byLoc 12 16) (init [(1, 3), (1, 3)]) σ).threads[1]? = some th ∧
+      th.result = some .unbound := by
+  refine ⟨badSchedule, ?_⟩
+  decide +kernel
+
+/-- the same schedule is harmless once stubs are compared by identity (an instance of `no_unbound_call`; here by
+    evaluation, together with the exact results: both threads get the unfolding of `Chain` to depth 3) -/
+example :
+    (results (run (retort chainG .byId 12 16) (init [(1, 3), (1, 3)]) badSchedule)) =
+      [some (unfold chainG 16 3 1), some (unfold chainG 16 3 1)] := by
+  decide +kernel
+
+/-- non-vacuity of `every_thread_finishes`: the bound is reached by a real run -/
+example : allDone (run (retort chainG .byId 12 16) (init [(1, 3), (1, 3)]) badSchedule) = true := by
+  decide +kernel
+
 end Adaptix.Threads.C12
